@@ -253,16 +253,53 @@ def mixed_pass(ctx):
         peer = E.EReference('peer', Node)
         base_feats = [name, kids] + [f for f in (one, peer) if rng.random() < .6]
         Node.eStructuralFeatures.extend(base_feats)
+        class Pretty(object):          # a plain Python helper class, not part of the metamodel
+            def pretty(this):
+                return 'pretty'
+        mix = rng.choice([None, None, 'before', 'after'])
         if rng.random() < .5:
-            class Sub(Node, metaclass=E.MetaEClass):
-                quota = E.EAttribute(eType=E.EInt)
+            if mix == 'before':
+                class Sub(Pretty, Node, metaclass=E.MetaEClass):
+                    quota = E.EAttribute(eType=E.EInt)
+            elif mix == 'after':
+                class Sub(Node, Pretty, metaclass=E.MetaEClass):
+                    quota = E.EAttribute(eType=E.EInt)
+            else:
+                class Sub(Node, metaclass=E.MetaEClass):
+                    quota = E.EAttribute(eType=E.EInt)
             style = 'metaclass'
         else:
-            @E.EMetaclass
-            class Sub(Node):
-                quota = E.EAttribute(eType=E.EInt)
+            if mix == 'before':
+                @E.EMetaclass
+                class Sub(Pretty, Node):
+                    quota = E.EAttribute(eType=E.EInt)
+            elif mix == 'after':
+                @E.EMetaclass
+                class Sub(Node, Pretty):
+                    quota = E.EAttribute(eType=E.EInt)
+            else:
+                @E.EMetaclass
+                class Sub(Node):
+                    quota = E.EAttribute(eType=E.EInt)
             style = 'decorator'
+        if mix:
+            style += '+mixin-' + mix
         Leaf = E.EClass('Leaf', superclass=(Sub.eClass,)) if rng.random() < .5 else None
+        if Leaf is not None:
+            # a dynamic class below a static one is still dynamic: what it is given after its creation, it has
+            Leaf.eStructuralFeatures.append(E.EAttribute('depth', E.EInt))
+            try:
+                lv = Leaf()
+                ok_own = lv.depth == 0 and not lv.eIsSet('depth')       # the default, through the descriptor
+                lv.depth = 4
+                ok_own = ok_own and lv.eGet('depth') == 4 and lv.eIsSet('depth') and Leaf.findEStructuralFeature('depth') is not None
+            except Exception as e:
+                ok_own = False
+            if not ok_own:
+                ctx.violate({'clause': 'views-of-mixed-hierarchy', 'style': style},
+                            'a dynamic class created below a static one (superclass=…) does not expose a feature added to it afterwards',
+                            {'mixed': k, 'style': style, 'own_feature': True})
+                return
         for cls in [Sub.eClass] + ([Leaf] if Leaf is not None else []):
             own = list(cls.eStructuralFeatures)
             want = set(base_feats) | set(Sub.eClass.eStructuralFeatures) | set(own)
